@@ -124,6 +124,9 @@ def r1_schema(ctx, repo, cname):
     def xp(e, at):
         return subst(index_maps(TT.expand(e, at=at, skip=(mname, xn))), back)
     prb = range_bounds(xp(prod_loop.iter, prod_loop))
+    if prb is None:
+        ctx.inconclusive("R1", C, where(mod, prod_loop), "the product loop %s is not a range loop" % text(prod_loop.iter), key="schema")
+        return None
     S = prb[1]
     try:
         S_ok = (prb[0] is None or text(prb[0]) == "0") and poly.equal(S, poly.parse("%s - %s - 1" % (mname, iv)))
@@ -270,7 +273,9 @@ def eval_box(cls, m, n, box):
     selfo = Obj(costs=[{"name": "f%d" % i} for i in range(m)], dimension=n)
     it = MInterp(cls, selfo)
     boxd = dict(enumerate(box))
-    env = {func_params(fn)[0]: selfo, func_params(fn)[1]: Obj(vector=[Aff.var(i, boxd) for i in range(len(box))])}
+    # a point needs no affine form (and the exact zeros of a face point must stay exact)
+    env = {func_params(fn)[0]: selfo, func_params(fn)[1]: Obj(vector=[box[i] if (isinstance(box[i], I) and box[i].is_point()) else Aff.var(i, boxd)
+                                                                        for i in range(len(box))])}
     val = None
     try:
         it.block(fn.body, env)
@@ -337,11 +342,15 @@ def r5_points(ctx, repo, cname, k):
     thorough = getattr(ctx, "tier", None) == "thorough" or getattr(getattr(ctx, "ctx", None), "tier", None) == "thorough"
     for m in ((2, 3, 4, 5, 6, 7) if thorough else (2, 3, 4, 5)):
         n = m + k - 1
-        for variant in (range(8) if thorough else (0, 1)):
+        for variant in (list(range(8)) + [-1, -2, -3] if thorough else (0, 1, -1, -2)):
             if variant == 0:
                 xs = [float(Fraction(2 * j + 3, 2 * n + 7)) for j in range(n)]
             elif variant == 1:
                 xs = [0.15 + 0.7 * ((j * 7) % 10) / 10.0 for j in range(n)]
+            elif variant < 0:
+                # points on the faces of the box: one position variable exactly 0 / exactly 1 (sin(0) and x = 0 are exact zeros)
+                xs = [float(Fraction(2 * j + 3, 2 * n + 7)) for j in range(n)]
+                xs[{-1: 0, -2: min(m - 2, 1), -3: 0}[variant]] = 1.0 if variant == -3 else 0.0
             else:
                 # low-discrepancy points of the box (fractional parts of multiples of square roots of primes)
                 xs = [((variant * (j + 1) * math.sqrt((2, 3, 5, 7, 11, 13, 17, 19)[(j + variant) % 8])) % 1.0) * 0.98 + 0.01 for j in range(n)]
@@ -604,7 +613,11 @@ def run(ctx):
     n = 0
     for cname, k_of in (("DTLZI", lambda m: m + 4), ("DTLZII", lambda m: m + 9), ("DTLZIII", lambda m: m + 9), ("DTLZIV", lambda m: m + 9)):
         first = len(ctx.instances)
-        info = r1_schema(ctx, repo, cname)
+        try:
+            info = r1_schema(ctx, repo, cname)
+        except (AttributeError, IndexError, TypeError, KeyError) as e_:
+            ctx.inconclusive("R1", "%s.evaluate" % cname, "", "schema recogniser gave up (%s: %s)" % (type(e_).__name__, e_), key="schema")
+            info = None
         distance_range(ctx, repo, cname, info)
         r2_r4(ctx, repo, cname, info, k_of)
         r5_points(ctx, repo, cname, k_of(2) - 1)
